@@ -279,13 +279,20 @@ LO, HI = _ALPHABET.get(CODEC, (-2, 17))
 
 
 # ---- rooms: orderings ------------------------------------------------------------------------------------------
-def h_rooms_order(s: str, rot: int, rev: bool, cellrot: int, cellrev: bool, v0: int, v1: int, v2: int) -> bool:
+_PERMS = [(0, False, 0, False), (1, False, 0, False), (0, True, 0, False), (0, False, 1, False), (0, False, 0, True), (1, True, 1, True),
+          (2, False, 1, True), (2, True, 0, False)]
+NPERM = int(os.environ.get("VERIF_NPERM", "6"))
+
+
+def h_rooms_order(s: str, pcode: int, vsel: bool) -> bool:
     """
     decode a symbolic body to the canonical rooms, permute the room list (rotation/reversal) and each room's cell list,
     serialise: the text must be the canonical text and decode to the canonical value with values attached to the same rooms
-    pre: len(s) <= L and 0 <= rot <= 3 and 0 <= cellrot <= 2 and 0 <= v0 <= 17 and 0 <= v1 <= 17 and 0 <= v2 <= 300
+    pre: len(s) <= L and 0 <= pcode < NPERM
     post: _
     """
+    rot, rev, cellrot, cellrev = _PERMS[pcode]
+    v0, v1, v2 = (1, 15, 255) if vsel else (0, 16, 256)
     env = _env()
     room_comb = Rooms()
     try:
@@ -323,3 +330,79 @@ def h_rooms_order(s: str, rot: int, rev: bool, cellrot: int, cellrev: bool, v0: 
     want = {tuple(sorted(room)): v for room, v in zip(rooms, vals)}
     got = {tuple(sorted(room)): v for room, v in zip(back[0], back[1])}
     return got == want and back[0] == rooms
+
+
+# ---- URL level (C17) -----------------------------------------------------------------------------------------------
+from cspuz.problem_serializer import deserialize_problem_as_url, get_puzzle_info_from_url, serialize_problem_as_url  # noqa: E402
+
+URL_BODIES = {
+    "nurikabe": ["", "g", "1g", "-10", "h", "2.g1", "--1g", "zz"],
+    "sudoku": ["", "g", "1g", "+100g", "i", "12", "3"],
+    "masyu": ["", "0", "a", "aa", "q", "r"],
+    "slitherlink": ["", "g", "5", "a", "0g", "cc", "f"],
+    "nurimisaki": ["", "g", ".g", "1.", "-1f", "k"],
+    "yajilin": ["", "a", "11a", "0.a", "b", "1", "4f", "110"],
+    "heyawake": ["", "0", "00", "g0", "01", "8g", "001g", "v"],
+    "lits": ["", "0", "00", "g", "g0", "vv", "8"],
+    "norinori": ["", "0", "00", "g", "w"],
+    "Grid_SpacesHex": ["", "g", "1", "gg"],
+    "Rooms": ["", "0", "00"],
+    "ValuedRooms": ["", "0", "001"],
+}
+
+
+DMAX = int(os.environ.get("VERIF_DMAX", "2"))
+
+
+def h_url_fields(w: int, h: int, name_kind: int, body_idx: int, allow_failure: bool, return_size: bool) -> bool:
+    """
+    well-formed URL with symbolic declared width / height (0..DMAX), right / wrong puzzle name, fixed list of bodies
+    pre: 0 <= w <= DMAX and 0 <= h <= DMAX and 0 <= name_kind <= 2 and 0 <= body_idx < len(URL_BODIES[CODEC])
+    pre: name_kind == 0 or (allow_failure and not return_size)
+    post: _
+    """
+    name = [CODEC, "other", CODEC + "x"][name_kind]
+    url = "https://puzz.link/p?" + name + "/" + str(w) + "/" + str(h) + "/" + URL_BODIES[CODEC][body_idx]
+    info = get_puzzle_info_from_url(url)
+    if info != (name, h, w):
+        return False
+    try:
+        r = deserialize_problem_as_url(COMB, url, allowed_puzzles=[CODEC], allow_failure=allow_failure, return_size=return_size)
+    except ValueError:
+        return True
+    if r is None:
+        return True
+    if name_kind != 0:
+        return False       # a URL of another puzzle must be rejected when allowed_puzzles is given
+    if return_size:
+        if not (isinstance(r, tuple) and len(r) == 3 and r[0] == h and r[1] == w):
+            return False
+        v = r[2]
+    else:
+        v = r
+    # the returned problem has the declared dimensions and is re-encodable to a URL that decodes to itself
+    global H, W
+    saved = (H, W)
+    H, W = h, w
+    try:
+        if not _dims_ok(v):
+            return False
+    finally:
+        H, W = saved
+    url2 = serialize_problem_as_url(COMB, CODEC, h, w, v)
+    return deserialize_problem_as_url(COMB, url2, allowed_puzzles=CODEC) == v
+
+
+def h_url_any(url: str, allow_failure: bool) -> bool:
+    """
+    an arbitrary short string presented as a URL (never well-formed at this length): None or ValueError only
+    pre: len(url) <= L
+    post: _
+    """
+    try:
+        r = deserialize_problem_as_url(COMB, url, allow_failure=allow_failure)
+    except ValueError:
+        return True
+    if get_puzzle_info_from_url(url) is not None:
+        return False
+    return r is None
